@@ -171,6 +171,30 @@ func refAt(ll LookupList, gd *gdef.Table, lk *LookupTable, seq []glyph.Info, i i
 			}
 			refAdjust(&out[j], adj.Second)
 			return out, j + 1, true
+		case *Gpos2_2:
+			// class pair adjustment: first glyph covered; classes of both glyphs select the record
+			if !s.Cov[g] {
+				continue
+			}
+			j := i + 1
+			for j < len(seq) && refSkip(meta, gd, seq[j].GID) {
+				j++
+			}
+			if j >= len(seq) {
+				continue
+			}
+			c1, c2 := int(s.Class1[g]), int(s.Class2[seq[j].GID])
+			if c1 >= len(s.Adjust) || c2 >= len(s.Adjust[c1]) || s.Adjust[c1][c2] == nil {
+				continue
+			}
+			adj := s.Adjust[c1][c2]
+			out := refCopy(seq)
+			refAdjust(&out[i], adj.First)
+			if adj.Second == nil {
+				return out, j, true
+			}
+			refAdjust(&out[j], adj.Second)
+			return out, j + 1, true
 		case *SeqContext1:
 			idx, ok := s.Cov[g]
 			if !ok || depth > 3 {
